@@ -46,6 +46,14 @@ func c16Gen(t *rapid.T) c16Case {
 	if rapid.Bool().Draw(t, "focus") {
 		focus = rapid.SampledFrom(kinds).Draw(t, "focuskind")
 	}
+	storm := focus == "record" || rapid.IntRange(0, 5).Draw(t, "storm") == 0
+	if storm {
+		// many goroutines following nested symlinks at the same time
+		focus = "record"
+		if n < 12 {
+			n = 12
+		}
+	}
 	for g := 0; g < n; g++ {
 		m := rapid.IntRange(1, 4).Draw(t, "nops")
 		var ops []c16Op
@@ -59,10 +67,17 @@ func c16Gen(t *rapid.T) c16Case {
 			case "sign", "verifysig", "dumpload", "loadkey", "record":
 				reps = rapid.SampledFrom([]int{1, 1, 5, 20, 40}).Draw(t, "reps")
 			}
-			ops = append(ops, c16Op{Kind: k, Arg: rapid.IntRange(0, 7).Draw(t, "arg"), Reps: reps})
+			arg := rapid.IntRange(0, 7).Draw(t, "arg")
+			if storm && k == "record" {
+				reps, arg = 40, 1+2*(arg%3) // odd: no normalisation; 1,3,5 -> 3 is "follow off", keep mostly on
+				if arg == 3 {
+					arg = 7
+				}
+			}
+			ops = append(ops, c16Op{Kind: k, Arg: arg, Reps: reps})
 		}
 		c.Goroutines = append(c.Goroutines, ops)
-		c.Symlinks = append(c.Symlinks, rapid.IntRange(0, 2).Draw(t, "symlinks") > 0)
+		c.Symlinks = append(c.Symlinks, storm || rapid.IntRange(0, 2).Draw(t, "symlinks") > 0)
 	}
 	return c
 }
@@ -86,7 +101,13 @@ func c16Tree(dir string, symlinks bool, g int) error {
 			hx.TNode{Path: "l-file", Kind: "symlink", Target: "a.txt"},
 			hx.TNode{Path: "sub/l-up", Kind: "symlink", Target: "../a.txt"},
 			hx.TNode{Path: "l-dir", Kind: "symlink", Target: "sub"},
-			hx.TNode{Path: "sub/deep/l-b", Kind: "symlink", Target: "../b.txt"})
+			hx.TNode{Path: "sub/deep/l-b", Kind: "symlink", Target: "../b.txt"},
+			// nested follows: l-dir -> sub, sub/deep/l-er -> er, er/l-more -> more, more/l-f -> a.txt
+			hx.TNode{Path: "er/x.txt", Kind: "file", Content: "x\n"},
+			hx.TNode{Path: "more/y.txt", Kind: "file", Content: "y\n"},
+			hx.TNode{Path: "sub/deep/l-er", Kind: "symlink", Target: "../../er"},
+			hx.TNode{Path: "er/l-more", Kind: "symlink", Target: "../more"},
+			hx.TNode{Path: "more/l-f", Kind: "symlink", Target: "../a.txt"})
 	}
 	return hx.WriteTree(dir, nodes)
 }
